@@ -575,8 +575,14 @@ pub trait ClientFolderStorage:
                 .await?;
         }
 
+        #[cfg(sos_verif)]
+        sos_core::verif_probe::hit("client_compact:after_log");
+
         // Refresh in-memory vault and mirrored copy
         let buffer = self.refresh_vault(folder_id, key, Internal).await?;
+
+        #[cfg(sos_verif)]
+        sos_core::verif_probe::hit("client_compact:after_refresh");
 
         let account_event = AccountEvent::CompactFolder(*folder_id, buffer);
 
@@ -1198,6 +1204,9 @@ pub trait ClientAccountStorage:
         let (buf, key, summary) =
             self.prepare_folder(options, Internal).await?;
 
+        #[cfg(sos_verif)]
+        sos_core::verif_probe::hit("client_create_folder:after_prepare");
+
         let account_event =
             AccountEvent::CreateFolder(*summary.id(), buf.clone());
         let account_log = self.account_log().await?;
@@ -1205,6 +1214,9 @@ pub trait ClientAccountStorage:
         account_log
             .apply(std::slice::from_ref(&account_event))
             .await?;
+
+        #[cfg(sos_verif)]
+        sos_core::verif_probe::hit("client_create_folder:after_account_event");
 
         // Must save the folder access key
         self.authenticated_user_mut()
@@ -1232,6 +1244,9 @@ pub trait ClientAccountStorage:
 
         // Remove the files
         self.remove_vault(folder_id, Internal).await?;
+
+        #[cfg(sos_verif)]
+        sos_core::verif_probe::hit("client_delete_folder:after_remove_vault");
 
         // Remove local state
         self.remove_folder_entry(folder_id, Internal)?;
